@@ -255,7 +255,8 @@ def check_multimol(case, stats):
     parameters; every instance must carry exactly the terms of its own type, whatever the definition order"""
     viols = []
     at = [f"{t} 12.0 0.0 A 0.3 0.1" for t in ("TA", "TB", "TC", "TD", "UA", "UB", "UC", "UD")]
-    dtypes = ["TA TB TC TD 9 0 1.5 1", "TA TB TC TD 9 180 2.5 2", "TA TB TC TD 9 60 3.5 3", "UA UB UC UD 9 30 7.5 1"]
+    # the second line is there twice: every listed line is a term of its own
+    dtypes = ["TA TB TC TD 9 0 1.5 1", "TA TB TC TD 9 180 2.5 2", "TA TB TC TD 9 180 2.5 2", "TA TB TC TD 9 60 3.5 3", "UA UB UC UD 9 30 7.5 1"]
     mols = {"MULTI": (["TA", "TB", "TC", "TD"], "1 2 3 4 9"), "SINGLE": (["UA", "UB", "UC", "UD"], "4 3 2 1 9"),
             "PLAIN": (["UA", "TB", "UC", "TD"], "1 2 3 4 9 11 2.2 3")}
     order = {"multi-first": ["MULTI", "SINGLE", "PLAIN"], "multi-last": ["SINGLE", "PLAIN", "MULTI"], "multi-middle": ["PLAIN", "MULTI", "SINGLE"]}[case["order"]]
@@ -269,7 +270,7 @@ def check_multimol(case, stats):
         top = read_pre("\n".join(out) + "\n")
     except Exception as exc:  # noqa
         return [crash_violation(exc, case, assertion="preprocess-does-not-crash")], True
-    want = {"MULTI": sorted([("9", "0", "1.5", "1"), ("9", "180", "2.5", "2"), ("9", "60", "3.5", "3")]),
+    want = {"MULTI": sorted([("9", "0", "1.5", "1"), ("9", "180", "2.5", "2"), ("9", "180", "2.5", "2"), ("9", "60", "3.5", "3")]),
             "SINGLE": [("9", "30", "7.5", "1")], "PLAIN": [("9", "11", "2.2", "3")]}
     for n, mm in enumerate(top.molecules):
         got = sorted(tuple(str(p) for p in i.parameters) for i in mm.molecule.interactions.get("dihedrals", []))
